@@ -129,7 +129,9 @@ CLI_PATTERNS = [("vYYYY0M.BUILD[-TAG]", "v2021%02d.%s", r"^v\d{6}\.(\d+)"), ("YY
                 ("BUILD.INC0", "%s.4", r"^(\d+)\."),
                 # a resettable part to the right of BUILD; ISO year and week next to BUILD (its name contains a U)
                 ("YYYY.BUILD[PYTAGNUM]", "2021.%sb0", r"^\d{4}\.(\d+)"), ("vYYYY.BUILD[-TAGNUM]", "v2021.%s-beta1", r"^v\d{4}\.(\d+)"),
-                ("GGGG.0V.BUILD", "2021.05.%s", r"^\d{4}\.\d\d\.(\d+)$"), ("vGGGGw0V.BUILD[-TAG]", "v2021w05.%s", r"^v\d{4}w\d\d\.(\d+)")]
+                ("GGGG.0V.BUILD", "2021.05.%s", r"^\d{4}\.\d\d\.(\d+)$"), ("vGGGGw0V.BUILD[-TAG]", "v2021w05.%s", r"^v\d{4}w\d\d\.(\d+)"),
+                # BLD shows the same id without its zero padding
+                ("YYYY.BLD", "2021.%s", r"^\d{4}\.(\d+)$")]
 
 
 def cli_stream(rep, r, n):
@@ -138,7 +140,9 @@ def cli_stream(rep, r, n):
     from . import impl
     for i_ in range(n):
         pat, tmpl, rx = CLI_PATTERNS[i_ % len(CLI_PATTERNS)]
-        bid = r.choice(["7", "42", "099", "0998", "1001", "1999", "22000", "0001", "9998", "10999", "899999", "01234", "09997", "000123", "0010000", str(r.randrange(0, 99999))])
+        bid = r.choice(["7", "42", "099", "0998", "1001", "1999", "22000", "0001", "9998", "10999", "899999", "01234", "09997", "000123", "0010000", "1009", "1099", "1999", "10009", str(r.randrange(0, 99999))])
+        if "BLD" in pat:
+            bid = bid.lstrip("0") or "7"       # BLD is the id without zero padding
         old = tmpl % ((r.randrange(1, 12), bid) if tmpl.count("%") == 2 else (bid,))
         args = ["test", old, pat]
         flags = []
@@ -146,6 +150,8 @@ def cli_stream(rep, r, n):
             flags.append("--pin-increments")
         if "TAG" in pat and r.random() < 0.4:
             flags += ["--tag", r.choice(["alpha", "beta", "rc", "post"])]
+        if "NUM" in pat and "-beta1" in old and r.random() < 0.5:
+            flags.append("--tag-num")
         if "MAJOR" in pat and r.random() < 0.4:
             flags.append(r.choice(["--major", "--minor"]))
         if "YYYY" in pat or "GGGG" in pat:
@@ -164,7 +170,14 @@ def cli_stream(rep, r, n):
         if not m:
             rep.violation("the new version does not carry a BUILD where the pattern has one", input=inp, **{"class": "no-build"})
             continue
-        oracle(rep, bid, m.group(1), generated=False)
+        if "BLD" in pat:
+            # without padding only the numbers can be compared
+            if not int(m.group(1)) > int(bid):
+                rep.violation("new BUILD is not numerically greater", input=dict(inp, old=bid, new=m.group(1)), **{"class": "not-greater-int"})
+            elif int(bid) >= 1000 and len(m.group(1)) < len(str(int(bid))):
+                rep.violation("new BUILD (shown through BLD) lost digits", input=dict(inp, old=bid, new=m.group(1)), **{"class": "zeros-lost"})
+        else:
+            oracle(rep, bid, m.group(1), generated=False)
 
 
 def tag_stream(rep):
